@@ -20,7 +20,7 @@ theorem Post.map_ok {α β} {m : DrvM α} {s : DrvState} {a : α} {c : Radio} {p
   rw [hx] at h hres
   simp only at hres
   subst hres
-  exact ⟨rfl, h.cfg, h.p0, h.cached, h.wf, h.rid, h.frame⟩
+  exact ⟨rfl, h.cfg, h.p0, h.cached, h.wf, h.rid, h.frame, h.len⟩
 
 theorem Post.map_err {α β} {m : DrvM α} {s : DrvState} {e : PyErr} {c : Radio} {p : Option Bytes}
     (f : α → DrvM β) (h : Post (exec m s) s (.error e) c p) : Post (exec (m >>= f) s) s (.error e) c p :=
